@@ -60,10 +60,11 @@ class CallSink:
 class AggSink:
     """construction of ADT literal `adt`(::variant)"""
 
-    def __init__(self, adt, variant=None, dest_local=None):
+    def __init__(self, adt, variant=None, dest_local=None, dest_ty=None):
         self.adt = adt
         self.variant = variant
         self.dest_local = dest_local
+        self.dest_ty = dest_ty  # substring that the destination local's type must contain
 
     def blocks(self, body):
         out = []
@@ -75,6 +76,8 @@ class AggSink:
                 if rv["k"] == "agg" and rv["ak"] == "adt" and pat_match(norm(rv["adt"]), [self.adt]) and \
                         (self.variant is None or rv["variant"] == self.variant):
                     if self.dest_local is not None and s["d"][0] != self.dest_local:
+                        continue
+                    if self.dest_ty is not None and self.dest_ty not in body.locals.get(str(s["d"][0]), ""):
                         continue
                     out.append(b["id"])
                     break
